@@ -76,6 +76,8 @@ def handle (z : St) (args : List String) : Option (St × Proto.Out) :=
     let (g2, _) ← DriverLpg.handle g1 ["snp", o.model, k, v]
     pure ({ z with db := { z.db with live := g2.st }, g := g2, sawQuery := true }, o)
   | ["ckpt"] => some ({ z with db := z.db.api .checkpoint, sawMidCkpt := true }, { model := "-" })
+  -- the log continues in its next file: no effect on what a reopen returns
+  | ["rotate"] => some (z, { model := "-" })
   | ["close"] => some ({ z with db := z.db.close }, { model := "-" })
   | ["reopen"] =>
     let d' := z.db.close.reopen
